@@ -168,7 +168,9 @@ def sync_table(ctx: Ctx, rule: str) -> None:
     matchers = [m_has, m_policy, m_pf, m_sel, m_inst,
                 N.M("NET", "_OBJ.key == 'nets'"), N.M("ISPERM", "_OBJ.is_permanent()")]
     STATE = OBJP + ".get('set_state')"
-    LOC = "':' + " + OBJP + "['shared_pool']"
+    from ..canon import canon_text
+
+    LOC = canon_text("':' + " + OBJP + "['shared_pool']")
     UNSET = ("pool_scope", "unset_location=" + LOC, "unset_mode=" + OBJP + ".get('unset_mode', 'ri')", "unset_state=" + STATE)
     GET = ("get_location=" + LOC, "get_state=" + STATE)
 
